@@ -56,6 +56,33 @@ func replay(c *vlib.Ctx) {
 		c.Count(1, 1)
 		c.Finish()
 	}
+	if cs.Extreme == nil && cs.Config != nil && len(cs.Behaviour) > 0 {
+		// an honest block: the behaviour is replayed; its last block goes through the entry points again
+		sim := chain.NewSim(cs.Config.P)
+		for i, st := range cs.Behaviour {
+			res, infra := sim.RunStep(i, st)
+			if infra != nil {
+				c.Fatal("replay: %v", infra)
+			}
+			for _, m := range res.Mismatches {
+				if m.Kind == "panic" {
+					c.Violation(f.Key, "replayed honest behaviour: "+m.Detail, map[string]any{"config": cs.Config, "behaviour": cs.Behaviour[:i+1], "honest": true})
+					c.Count(1, 1)
+					c.Finish()
+				}
+			}
+		}
+		if len(sim.Chain) > 0 {
+			a := sim.Chain[len(sim.Chain)-1]
+			m := &mctx{sim: sim, cs: a.Prev, child: a.Prev.Index.Height + 1, keys: keyMap(sim)}
+			m.b, m.bs = cloneBlock(a.Block, a.Supp)
+			if lo := m.exercise(newGuard(), func(string, bool) {}); lo != nil && lo.O.bad() {
+				c.Violation(f.Key, fmt.Sprintf("%s panics on the replayed honest block: %s", lo.Entry, lo.O.Panic), map[string]any{"config": cs.Config, "behaviour": cs.Behaviour, "honest": true, "stack": lo.O.Stack})
+			}
+		}
+		c.Count(1, 1)
+		c.Finish()
+	}
 	if cs.Extreme != nil && cs.Config != nil {
 		replayLedger(c, f.Key, *cs.Extreme, cs.Sealed, *cs.Config, cs.Behaviour)
 		c.Count(1, 1)
